@@ -178,6 +178,15 @@ def run(ctx) -> None:
     c02.r4_r5_r7_load(ctx, R4="C05.R3", R5="C05.R3", R7="C05.R6")
     r4_sugar(ctx, nf)
     c02.r2_single_use_iterators(ctx, rule="C05.R5")
+    ctx.rule("C05.R7", "what is written is what the models hold: no dump exclusions, no model configuration that rewrites values (shared with C03.R1 / C17.R3)", floor=60)
+    from .c03 import r1_emitters
+    from .c17 import r3_no_hidden_acceptance_logic
+    from ..schema import SchemaDeriver
+    d3 = SchemaDeriver(ctx.program, None)
+    d3.canon = ctx.canon
+    with ctx.as_rule(C03_R1="C05.R7", C17_R3="C05.R7"):
+        r1_emitters(ctx)
+        r3_no_hidden_acceptance_logic(ctx, d3, with_required=False)
     from .. import lints
     lints.arm(ctx)
 
